@@ -345,6 +345,10 @@ def rule_pgram(ctx):
             n += 1
             ikey = "%s[%s]" % (adt.split("::")[-1], ",".join("%s=%s" % kv for kv in sorted(conds.items()) if kv[0] in ("sort", "op", "pol", "chi", "self.snd", "self.newline")))
             bad_tok = [t for t in lt if t[0] == "?"]
+            unknown = [t[1] for t in lt if t[0] != "tok" and isinstance(t[1], str) and (t[1].startswith(("pretty::", "list(", "?")) or "$ret" in t[1])]
+            if unknown:
+                raise AnalysisError("R-PGRAM: the print template of %s contains a part the printer model could not determine (%s): "
+                                    "the analysis cannot follow this printer" % (adt, ", ".join(unknown)[:200]))
             cd = lambda fld, o, cl, adt=adt: child_prints_delims(ctx, lexer, adt, fld, o, cl)
             ok = not bad_tok and any(match(lt, seq, tuple(enum_fields), cd) for _, seq in seqs)
             if ok:
